@@ -122,7 +122,8 @@ class Sum(Sequential):
 
     def backward_var(self, grad, index, **kwargs):
         (a,) = self.variables
-        if self.axis is None:
+        if self.axis is None or a.ndim == 0:
+            # (NumPy accepts axis=0 / axis=-1 on a 0-d array)
             return np.full(a.shape, grad, dtype=a.dtype)
 
         if not self.keepdims:
@@ -140,7 +141,7 @@ class Mean(Sum):
         (a,) = self.variables
         n = (
             a.data.size
-            if self.axis is None
+            if self.axis is None or a.ndim == 0
             else np.prod([a.shape[i] for i in self.axis])
         )
         return super().backward_var(grad / n, index, **kwargs)
